@@ -121,8 +121,7 @@ def parseBlocks (s : String) : Option (List Decl) := do
 def siteFlags (c : Site) : String :=
   bit c.enabled ++ bit c.manual ++ bit c.selfSigned ++ bit c.noRedirect ++ bit c.onDemand
 
-def probeHost : Bytes := b!"probe.test"
-def probeURI : Bytes := b!"/p?q=1"
+open Casket.AutoHTTPSSpec (probeHost probeURI probeTarget)
 
 def showSite (d : Option (Site × Bool × Site)) (f : Site) : String :=
   let fin := s!"f={q f.scheme}|{q f.host}|{q f.port}|{bit f.enabled}"
@@ -159,18 +158,6 @@ def specDeclared (d : Decl) : Site :=
   applyTLS d.tls { scheme := s, host := h, port := p, listen := d.bind }
 
 def parseBit (s : String) : Option Bool := if s == "1" then some true else if s == "0" then some false else none
-
-/-- port written in `https://probe.test[:port]/p?q=1` -/
-def probeTarget (loc : Bytes) : Option Bytes :=
-  let pre := b!"https://probe.test"
-  if !hasPrefix loc pre then none
-  else
-    let rest := loc.drop pre.length
-    if rest == probeURI then some []
-    else if hasPrefix rest b!":" && hasSuffix rest probeURI then
-      let p := (rest.drop 1).take (rest.length - 1 - probeURI.length)
-      if p.all isDigit && !p.isEmpty then some p else none
-    else none
 
 /-- one site record of the implementation's answer -/
 structure Rec where
